@@ -621,7 +621,7 @@ impl<'a, 'b> GsubHandler<'a, 'b> {
     /// returns the range of touched glyphs.
     fn finish(self) -> Option<Range<usize>> {
         self.visited_set.clear();
-        if self.min_gid > self.max_gid {
+        if self.min_gid > self.max_gid || self.glyph_styles.is_empty() {
             // We didn't touch any glyphs
             return None;
         }
